@@ -259,3 +259,21 @@ Section Table.
       destruct Hh as [H|[H|[H|[H|H]]]]; auto. lia.
   Qed.
 End Table.
+
+(* the three rows of the table together (the form Props/C17.v states) *)
+Lemma check_fields_table_gen struct v json_len type sk sender room :
+  ((struct =? 3) = false /\ shaped 33 room
+   \/ (struct =? 3) = true /\ is_create_v3 type sk = false /\ exists r, room = 33 :: r) ->
+  lenient_version v = true -> bytes_eqb v pseudo_id_version = false ->
+  shaped 64 sender -> room_valid room = true ->
+  let verdict := event_checks struct v false json_len type sk sender room in
+  (hard_limit_exceeded json_len type sk sender room -> verdict = VTooLarge false)
+  /\ (no_hard_limit_exceeded json_len type sk sender room ->
+      byte_limit_exceeded type sk sender room -> verdict = VTooLarge true)
+  /\ (all_within_limits json_len type sk sender room -> verdict = VOk).
+Proof.
+  intros H1 H2 H3 H4 H5. repeat split.
+  - apply table_refused; assumption.
+  - apply table_persistable; assumption.
+  - apply table_ok; assumption.
+Qed.
